@@ -19,3 +19,30 @@ package meta
 //@   ensures [C17] ep == 7 ==> r0 == "Portrait"
 //@   ensures [C17] ep == 8 ==> r0 == "Landscape"
 //@   ensures [C17] ep == 9 ==> r0 == "Bulb"
+//@   ensures [C17] ep > 9 ==> r0 == "Not Defined"
+//@   decreases ep
+
+// Names from the ExifTool EXIF tag tables the source cites (TagNames/EXIF.html: Flash, MeteringMode, ExposureMode,
+// Orientation), transcribed independently of the string tables in exifTypes.go; every other value gets the fallback.
+
+//@ func Flash.String
+//@   props C17
+//@   pure
+//@   decreases f
+//@   ensures [C17] enumNames(f, r0, "No Flash", 0x0, "No Flash", 0x1, "Fired", 0x5, "Fired, Return not detected", 0x7, "Fired, Return detected", 0x8, "On, Did not fire", 0x9, "On, Fired", 0xd, "On, Return not detected", 0xf, "On, Return detected", 0x10, "Off, Did not fire", 0x14, "Off, Did not fire, Return not detected", 0x18, "Auto, Did not fire", 0x19, "Auto, Fired", 0x1d, "Auto, Fired, Return not detected", 0x1f, "Auto, Fired, Return detected", 0x20, "No flash function", 0x30, "Off, No flash function", 0x41, "Fired, Red-eye reduction", 0x45, "Fired, Red-eye reduction, Return not detected", 0x47, "Fired, Red-eye reduction, Return detected", 0x49, "On, Red-eye reduction", 0x4d, "On, Red-eye reduction, Return not detected", 0x4f, "On, Red-eye reduction, Return detected", 0x50, "Off, Red-eye reduction", 0x58, "Auto, Did not fire, Red-eye reduction", 0x59, "Auto, Fired, Red-eye reduction", 0x5d, "Auto, Fired, Red-eye reduction, Return not detected", 0x5f, "Auto, Fired, Red-eye reduction, Return detected")
+
+//@ func MeteringMode.String
+//@   props C17
+//@   pure
+//@   ensures [C17] enumNames(mm, r0, "Unknown", 0, "Unknown", 1, "Average", 2, "Center-weighted average", 3, "Spot", 4, "Multi-spot", 5, "Multi-segment", 6, "Partial", 255, "Other")
+
+//@ func ExposureMode.String
+//@   props C17
+//@   pure
+//@   ensures [C17] enumNames(em, r0, "Unknown", 0, "Auto", 1, "Manual", 2, "Auto bracket")
+
+//@ func Orientation.String
+//@   props C17
+//@   pure
+//@   decreases o
+//@   ensures [C17] enumNames(o, r0, "Unknown", 1, "Horizontal", 2, "Mirror horizontal", 3, "Rotate 180", 4, "Mirror vertical", 5, "Mirror horizontal and rotate 270 CW", 6, "Rotate 90 CW", 7, "Mirror horizontal and rotate 90 CW", 8, "Rotate 270 CW")
